@@ -913,6 +913,10 @@ def check_C20(rep, scr, tier, seed):
 REGISTRY['C20'] = check_C20
 
 # ------------------------------------------------------------------ C15: multibyte <-> wide conversions
+def block_addr(i, mode, size):
+    base = 0x100000000 + i * 0x20000
+    return base + 4096 + 0x10000 - size if mode == 'R' else base + 4096
+
 def gen_conv_cases(seed, tier, consts, loc):
     import itertools, random
     rng = random.Random(seed); cs = []; n = [0]
@@ -944,6 +948,23 @@ def gen_conv_cases(seed, tier, consts, loc):
                 add('wcstombs_s', [('R', ret8), ('R', fam_copy.garbage(rng, max(dmax, ln, 1))), ('R', wsrc)], [(0, 0), (1, 0), dmax, (2, 0), ln, UNK],
                     op='wcstombs', chars=s, dmax=dmax, len=ln, kind='len>dmax' if ln > dmax else 'ok', valid=True, objelems=max(dmax, ln, 1))
         add('wcstombs_s', [('R', ret8), ('R', wsrc)], [(0, 0), None, 64, (1, 0), nb + 1, UNK], op='wcstombs', chars=s, dmax=64, len=nb + 1, kind='query', valid=True)
+    # restartable forms (implementation side only): srcp is a pointer to the source pointer
+    for s in strings[:40]:
+        nb = len(mb(s)); nc = len(s)
+        for dmax in sorted(set([nc + 1, nc + 3])):
+            for ln in sorted(set([max(nc - 1, 0), nc, nc + 2])):
+                if ln > dmax: continue
+                src = mb(s) + b'\0'
+                pp = block_addr(2, 'R', len(src)).to_bytes(8, 'little')
+                n[0] += 1; cs.append(vlib.Case('v%d' % n[0], 'mbsrtowcs_s', [('R', ret8), ('R', fam_copy.garbage(rng, 4 * dmax)), ('R', src), ('R', pp), ('R', b'\0' * 8)],
+                    [(0, 0), (1, 0), dmax, (3, 0), ln, (4, 0), UNK], dict(cls='conv', func='mbsrtowcs_s', loc=loc, op='mbsrtowcs', chars=s, dmax=dmax, len=ln, kind='ok', valid=True, objelems=dmax)))
+        wsrc = fam_copy.enc(s + [0], 4)
+        for dmax in sorted(set([nb + 1, nb + 4])):
+            for ln in sorted(set([max(nb - 1, 0), nb, nb + 1])):
+                if ln > dmax: continue
+                pp = block_addr(2, 'R', len(wsrc)).to_bytes(8, 'little')
+                n[0] += 1; cs.append(vlib.Case('v%d' % n[0], 'wcsrtombs_s', [('R', ret8), ('R', fam_copy.garbage(rng, dmax)), ('R', wsrc), ('R', pp), ('R', b'\0' * 8)],
+                    [(0, 0), (1, 0), dmax, (3, 0), ln, (4, 0), UNK], dict(cls='conv', func='wcsrtombs_s', loc=loc, op='wcsrtombs', chars=s, dmax=dmax, len=ln, kind='ok', valid=True, objelems=dmax)))
     for bad in (invalid_mb if loc == 'u8' else [b'\x80', b'\xe9']):
         for pre in ([], [0x61]):
             src = mb(pre) + bad + b'a\0'
@@ -972,23 +993,24 @@ def check_C15(rep, scr, tier, seed):
             for x in cases:
                 a = oi.get(x.id); b = om.get(x.id); m = x.meta
                 rep.evals += 1; rep.count('%s/%s/%s/%s' % (m['func'], m['kind'], loc, var))
-                if a is None or b is None: continue
+                if a is None: continue
+                if b is None: b = vlib.Outcome('%s ret=UNKNOWN' % x.id)
                 rep.nontrivial.add((m['func'], m['kind'], loc, var, a.ret, a.blocks[0] if a.blocks else None))
                 if len(rep.samples) < 8 and rep.evals % 3001 == 17: rep.samples.append({'case': x.line()[:200], 'impl': a.raw[:200], 'model': b.raw[:160]})
                 fails = []
                 if a.fault != '-': fails.append(('fault', 'faulted at %s' % a.fault))
                 else:
                     rc = int(a.ret); retval = int.from_bytes(a.blocks[0][:8], 'little')
-                    if m['op'] in ('mbstowcs', 'wcstombs') and m['kind'] in ('ok', 'query') and m['valid']:
-                        s = m['chars']; unit = 4 if m['op'] == 'mbstowcs' else 1
-                        full = s if m['op'] == 'mbstowcs' else list(''.join(chr(c) for c in s).encode('utf-8'))
+                    if m['op'] in ('mbstowcs', 'wcstombs', 'mbsrtowcs', 'wcsrtombs') and m['kind'] in ('ok', 'query') and m['valid']:
+                        s = m['chars']; unit = 4 if m['op'] in ('mbstowcs', 'mbsrtowcs') else 1
+                        full = s if m['op'] in ('mbstowcs', 'mbsrtowcs') else list(''.join(chr(c) for c in s).encode('utf-8'))
                         need = len(full)
                         if m['kind'] == 'query':
                             if rc != 0 or retval != need: fails.append(('query-length', 'size query returned %d / count %d, the converting form needs %d' % (rc, retval, need)))
                         else:
                             lim = m['len']
                             # what the standard function delivers limited to len: whole characters only
-                            if m['op'] == 'mbstowcs': deliver = full[:lim]
+                            if m['op'] in ('mbstowcs', 'mbsrtowcs'): deliver = full[:lim]
                             else:
                                 deliver = []; 
                                 for c in s:
@@ -1005,14 +1027,14 @@ def check_C15(rep, scr, tier, seed):
                         if rc == 0: fails.append(('invalid-accepted', 'invalid sequence accepted'))
                         elif a.blocks[1][:1] != b'\0': fails.append(('invalid-not-cleared', 'invalid sequence: dest not cleared'))
                     if 'objelems' in m:   # declared dest = dmax elements; anything beyond must be untouched
-                        unit = 4 if m['op'] == 'mbstowcs' else 1
+                        unit = 4 if m['op'] in ('mbstowcs', 'mbsrtowcs') else 1
                         if a.blocks[1][m['dmax'] * unit:] != x.blocks[1][1][m['dmax'] * unit:]: fails.append(('write-past-dmax', 'elements beyond dest[dmax] were written (dmax %d, len %s)' % (m['dmax'], m.get('len'))))
                 for kind, text in fails:
                     kid = known.classify(rep, x, a, kind, var, consts)
                     if kid: rep.known_hits[kid] = rep.known_hits.get(kid, 0) + 1
                     else: rep.violation('%s(%s,%s): %s' % (m['func'], locname, var, text), {'key': (m['func'], kind, loc), 'property': 'C15', 'function': m['func'], 'locale': locname, 'failure': kind,
                                         'case': x.to_json(), 'case_line': x.line(), 'impl_outcome': a.raw, 'model_outcome': b.raw})
-                if not fails and (a.ret, a.blocks, a.handlers, a.fault != '-') != (b.ret, b.blocks, b.handlers, b.fault != '-'): rep.mismatches.append((x, a, b, '%s/%s' % (var, loc)))
+                if not fails and b.ret != 'UNKNOWN' and (a.ret, a.blocks, a.handlers, a.fault != '-') != (b.ret, b.blocks, b.handlers, b.fault != '-'): rep.mismatches.append((x, a, b, '%s/%s' % (var, loc)))
     report_proofs(rep, pr, 'C15')
     report_mismatches(rep, 'T1 (converters)')
     rep.trusted = TRUSTED_COMMON + ['libc converters (mbstowcs, wcstombs, wcrtomb, wctomb) are modelled: UTF-8 as in Utf8.v (1-4 byte forms) in C.UTF-8, ASCII in C; mbsrtowcs_s/wcsrtombs_s are not yet modelled',
